@@ -52,7 +52,7 @@ for _deg in range(4):
 for _m in ('two_point', 'three_point', 'onion_peeling'):
     PAIRS_HALF['%s_transform==dasch_transform' % _m] = (
         "lambda X, dr: (abel.dasch.%s_transform(X, basis_dir=None, dr=dr), "
-        "abel.dasch.dasch_transform(X, abel.dasch.get_bs_cached(%r, X.shape[1], basis_dir=None)) / dr)" % (_m, _m))
+        "abel.dasch.dasch_transform(np.atleast_2d(X), abel.dasch.get_bs_cached(%r, np.atleast_2d(X).shape[1], basis_dir=None)) / dr)" % (_m, _m))
 PAIRS_HALF['basex-reg-tiny~reg0'] = (
     "lambda X, dr: (abel.basex.basex_transform(X, sigma=1.0, reg=1e-300, correction=False, basis_dir=None, dr=dr, verbose=False), "
     "abel.basex.basex_transform(X, sigma=1.0, reg=0.0, correction=False, basis_dir=None, dr=dr, verbose=False))")
@@ -65,15 +65,28 @@ for _deg in range(4):
         "abel.daun.daun_transform(D, reg=None, degree=%d, dr=dr, verbose=False)))"
         "(abel.daun.daun_transform(S, degree=%d, dr=dr, direction='forward', verbose=False))" % (_deg, _deg, _deg))
 
-SNIP_PAIR = SNIP_HEAD + '''
-name, n, rows, dr, seed, tol, nonneg = %(name)r, %(n)d, %(rows)d, %(dr)r, %(seed)d, %(tol)r, %(nonneg)r
+# every pair on every input shape the functions accept: many-row 2-D, one-row 2-D, 1-D profile; the result for the
+# single row must also equal row 0 of the many-row result (for both members of the pair)
+PAIR_SRC = '''
+def pair_check(f, n, rows, dr, seed, nonneg, shape):
+    X2 = np.random.default_rng(seed).normal(size=(rows, n)) * 10
+    if nonneg: X2 = np.abs(X2) + 0.5
+    fresh()
+    a2, b2 = f(X2, dr)
+    if shape == '2d':
+        return rel(a2, b2)
+    Xs = X2[:1] if shape == 'onerow' else X2[0]
+    fresh()
+    a, b = f(Xs.copy(), dr)
+    a, b = np.asarray(a, dtype=float), np.asarray(b, dtype=float)
+    return max(rel(a.ravel(), b.ravel()), rel(a.ravel(), np.asarray(a2)[0]), rel(b.ravel(), np.asarray(b2)[0]))
+'''
+
+SNIP_PAIR = SNIP_HEAD + PAIR_SRC + '''
+name, n, rows, dr, seed, tol, nonneg, shape = %(name)r, %(n)d, %(rows)d, %(dr)r, %(seed)d, %(tol)r, %(nonneg)r, %(shape)r
 f = %(fn)s
-X = np.random.default_rng(seed).normal(size=(rows, n)) * 10
-if nonneg: X = np.abs(X) + 0.5
-fresh()
-a, b = f(X, dr)
-e = rel(a, b)
-print('%%s n=%%d dr=%%r: the two results differ by %%.3e (tolerance %%.1e)' %% (name, n, dr, e, tol))
+e = pair_check(f, n, rows, dr, seed, nonneg, shape)
+print('%%s n=%%d dr=%%r input shape %%s: the results differ by %%.3e (tolerance %%.1e)' %% (name, n, dr, shape, e, tol))
 sys.exit(0 if e <= tol else 1)
 '''
 
@@ -240,6 +253,8 @@ def _globals():
             ac.cleanup()
         _G['fresh'] = fresh
         exec(RBASEX_SRC, _G)
+        _G['rel'] = ac.rel_err
+        exec(PAIR_SRC, _G)
     return _G
 
 
@@ -288,32 +303,32 @@ def search(ctx, rng, enlarged):
         for table, nonneg in ((PAIRS_HALF, False), (PAIRS_NONNEG, True)):
             for name, src in table.items():
                 f = eval(src, G)
-                for n in sizes:
-                    if name.startswith('three_point') and n < 3:
+                pair_check = G['pair_check']
+                for n in [2] + sizes:
+                    if n < 3 and ('three_point' in name or 'deg3' in name):
                         continue
-                    for dr in ((1.0, 0.4) if n % 2 else (2.5,)):
-                        seed = seed0 + n
-                        rows = 2 + n % 2
-                        X = np.random.default_rng(seed).normal(size=(rows, n)) * 10
-                        if nonneg:
-                            X = np.abs(X) + 0.5
-                        tol = RTOL if not nonneg else 1e-8
-                        ac.cleanup()
-                        try:
-                            a, b = f(X, dr)
-                            e = ac.rel_err(a, b)
-                        except Exception as ex:    # noqa
-                            e = float('inf')
-                        n_eval += 1
-                        distinct.add((name, n, dr))
-                        note(name.split('-')[0], e, tol)
-                        if len(samples) < 4 and n > 5:
-                            samples.append(dict(pair=name, n=n, dr=dr, rows=rows, difference=e))
-                        if not e <= tol:
-                            hits.append(Hit('paired-options', 'C17:' + name,
-                                            '%s: n=%d dr=%r results differ by %.2e (tolerance %.0e)' % (name, n, dr, e, tol),
-                                            SNIP_PAIR % dict(name=name, n=n, rows=rows, dr=dr, seed=seed, tol=tol, nonneg=nonneg, fn=src),
-                                            dict(pair=name, n=n, dr=dr, seed=seed, difference=e)))
+                    for shape in ('2d', 'onerow', '1d'):
+                        for dr in (1.0, 0.4, 2.5):
+                            if shape != '2d' and n > 9 and n % 2 and dr == 1.0:
+                                continue            # (thinning of the larger sizes)
+                            seed = seed0 + n
+                            rows = 2 + n % 2
+                            tol = RTOL if not nonneg else 1e-8
+                            try:
+                                e = pair_check(f, n, rows, dr, seed, nonneg, shape)
+                            except Exception as ex:    # noqa
+                                e = float('inf')
+                            n_eval += 1
+                            distinct.add((name, n, dr, shape))
+                            note(name.split('-')[0], e, tol)
+                            if len(samples) < 4 and n > 5 and shape == '1d':
+                                samples.append(dict(pair=name, n=n, dr=dr, rows=rows, shape=shape, difference=e))
+                            if not e <= tol:
+                                hits.append(Hit('paired-options', 'C17:%s:%s' % (name, shape if shape == '2d' else 'single-row'),
+                                                '%s: n=%d dr=%r input %s: results differ by %.2e (tolerance %.0e)' % (name, n, dr, shape, e, tol),
+                                                SNIP_PAIR % dict(name=name, n=n, rows=rows, dr=dr, seed=seed, tol=tol, nonneg=nonneg,
+                                                                 fn=src, shape=shape),
+                                                dict(pair=name, n=n, dr=dr, seed=seed, shape=shape, difference=e)))
         # ---- rbasex: zero strength, 'pos' ------------------------------------------
         n_feasible = 0
         for kind in ('L20', 'diff0', 'SVD0', 'pos'):
